@@ -258,7 +258,7 @@ pub fn first_line_cases() -> Vec<RangeCase> {
                     for &lead in &[false, true] {
                         for &container in containers {
                             for &doc in docs {
-                                if container != 0 && (indent != 0 || (shape != 0 && !(form == builder::Form::MdHtml && matches!(container, 2 | 3)))) {
+                                if container != 0 && (indent != 0 || (shape != 0 && form != builder::Form::MdHtml)) {
                                     continue; // inside containers: HTML comments of any shape, definitions on one line
                                 }
                                 let place = builder::Place { form: f as u8, trail: true, lead, nl_before: shape & 1 != 0, nl_after: shape & 2 != 0, post: if shape & 2 != 0 { 1 } else { 0 }, indent, doc, container, ..Default::default() };
